@@ -337,6 +337,20 @@ fn vp_native_tls_verification_matrix_body() {
     }
     // both checks are on by default: a stand-alone request, a fresh session
     assert!(crate::get(format!("https://localhost:{}/", ports[1])).proxy_settings(crate::ProxySettings::builder().build()).send().is_err(), "an unknown self-signed certificate was accepted by default"); cases += 1; crate::verif_native_watchdog::progress();
+    // (scoping of flags and added roots between sessions, clones and requests: vp_native_tls_settings_scoping)
+    println!("VP-NATIVE tls_verification_matrix cases={}", cases);
+}
+
+/// C14 / C16: a certificate flag or an added root affects exactly the session or request it was set on - observed with real
+/// handshakes (native-tls back end): sibling requests, the session of a request, clones taken before, other sessions, and two
+/// sessions that each add ONE root, but different ones (whatever is shared between handshakes must not be keyed by how many)
+#[test]
+fn vp_native_tls_settings_scoping() { crate::verif_native_watchdog::watched(vp_native_tls_settings_scoping_body); }
+fn vp_native_tls_settings_scoping_body() {
+    let expired_pem = include_str!(concat!(env!("CARGO_MANIFEST_DIR"), "/tests/tools/cert.pem"));
+    let ports = [serve_tls_origin(false), serve_tls_origin(true)];   // [expired, valid]
+    let direct = || { let mut s = crate::Session::new(); s.proxy_settings(crate::ProxySettings::builder().build()); s };
+    let mut cases = 0u64;
     // a flag or an added root affects exactly the session or request it was set on
     let url_ok = format!("https://localhost:{}/", ports[1]);
     let url_name = format!("https://127.0.0.1:{}/", ports[1]);
@@ -363,7 +377,18 @@ fn vp_native_tls_verification_matrix_body() {
         assert!(s.get(&url_name).danger_accept_invalid_hostnames(false).send().is_err(), "the request switched the name check back on");
         cases += 6;
     }
-    println!("VP-NATIVE tls_verification_matrix cases={}", cases);
+    // two settings objects with the same flags and the same NUMBER of added roots, but different roots: each trusts its own only
+    let other_root = || crate::tls::Certificate::from_pem(expired_pem.as_bytes()).unwrap();
+    for order in 0..2 { for on_session in [true, false] {
+        let (mut sa, mut sb) = (direct(), direct());
+        if on_session { sa.add_root_certificate(valid_root()); sb.add_root_certificate(other_root()); }
+        let go = |s: &crate::Session, own: bool| -> bool { let mut b = s.get(&url_ok); if !on_session { b = b.add_root_certificate(if own { valid_root() } else { other_root() }); } b.send().is_ok() };
+        let (ra, rb) = if order == 0 { let a = go(&sa, true); (a, go(&sb, false)) } else { let b = go(&sb, false); (go(&sa, true), b) };
+        cases += 2; crate::verif_native_watchdog::progress();
+        assert!(ra, "a {} that added the server's own certificate as a root was refused (another {} with another single root ran {})", if on_session { "session" } else { "request" }, if on_session { "session" } else { "request" }, if order == 0 { "after it" } else { "before it" });
+        assert!(!rb, "a {} that added only an unrelated root was accepted: the roots of another {} were used", if on_session { "session" } else { "request" }, if on_session { "session" } else { "request" });
+    } }
+    println!("VP-NATIVE tls_settings_scoping cases={}", cases);
 }
 
 /// C08 inside a CONNECT tunnel: the CONNECT line names the origin host and its effective port, and the request inside the
